@@ -1,1 +1,2 @@
 pub mod refsort;
+pub mod refparse;
